@@ -308,3 +308,32 @@ reg("C20", c20_units,
     "bounded symbolic model checking of (a) the data flow of validateResultPath: every lexical rule is applied to the CLEANED path, the cleaned path is what is stat'ed below the project root and what is recorded, missing files and directories are refused (strings as atoms, Clean/IsAbs/Join/HasPrefix/Contains uninterpreted, os.Stat symbolic); (b) one arbitrary event through the real replay loop body from an arbitrary store: only a result event changes a Results list, by prepending exactly one entry (inductive step: results are never dropped, duplicated, reordered or altered by later commands); (c) attach through set only to a live task; (d) compaction preserves the lists.",
     ["NOT decided: that the lexical rules on the cleaned path imply confinement for every byte string (needs filepath.Clean at byte level: the engine's address-union representation blew up on lazybuf, see DESIGN); sha256 = hash of the file content (crypto/sha256 not encodable); file_url derivation (net/url); symlinks (kernel path resolution)",
      "L1 stubs: validateResultPath / captureResultEvidence in the attach unit succeed or fail symbolically; the path-rules unit runs the real validateResultPath over an os.Stat stub"])
+
+
+# ---------------------------------------------------------------- C18
+HS18 = HSCMD + ["c11.go", "c03.go", "c18.go"]
+
+
+def c18_units(tier):
+    f = dict(FSFLAGS, only="C18/", _wall=300 if tier == "quick" else 3000)
+    cfgs = {"Neither": "neither log file", "Plans": "plans.jsonl only", "Legacy": "legacy events.jsonl only", "Both": "both files"}
+    us = []
+    for n in ("NewTask", "Claim", "Compact", "Prune", "Plan"):
+        for c, txt in cfgs.items():
+            us.append(Unit("same-log-%s-%s" % (n.lower(), c.lower()), HS18, "zzC18_SameLog%s_%s" % (n, c), f,
+                           bounds="store holding %s (each present file: <=1 arbitrary event), lock file present or absent, stale temp file or not; %s through the real lock/read/write path" % (txt, n)))
+    fr = {"loop": 16, "rec": 3, "only": "C18/"}
+    for n, txt in (("Cwd", "no --dir (working directory)"), ("AbsY", "--dir <root>/x/y"), ("AbsX", "--dir <root>/x"), ("AbsRoot", "--dir <root>"), ("AbsErgo", "--dir <root>/x/.ergo (the .ergo directory itself)"),
+                   ("AbsDotDot", "--dir <root>/x/y/../y"), ("RelY", "--dir y"), ("RelDot", "--dir ."), ("RelDotDot", "--dir .."), ("RelErgo", "--dir .ergo"), ("RelYSlash", "--dir ./y/")):
+        us.append(Unit("resolve-" + n.lower(), HS18, "zzC18_Resolve_" + n, fr, bounds="skeleton <root>/x/y, working directory <root>/x, each of the 3 directories holds a .ergo directory or not (8 layouts, symbolic); start spelling: " + txt))
+    for n in ("RelY", "RelDotDot", "AbsY"):
+        us.append(Unit("resolve-where-" + n.lower(), HS18, "zzC18_ResolveWhere_" + n, fr, bounds="same skeleton; the discovery call `where` makes (resolveErgoDir on the raw --dir value); spelling " + n))
+    us.append(Unit("init-idempotent", HS18, "zzC18_InitIdempotent", f, bounds="ANY combination of plans.jsonl / events.jsonl / lock present or absent, each log holding <=2 arbitrary events; init twice"))
+    return us
+
+
+reg("C18", c18_units,
+    "bounded symbolic model checking on the L0 file model extended with the legacy events.jsonl: for each store configuration (case split: neither / plans only / legacy only / both; lock and temp file symbolic) and each mutating command, the real getEventsPath picks the same file before and after, the other log file sees no create/write/rename, the store stays readable and the next read sees the command's effect, and a missing lock file does not make a valid command fail; init on any configuration changes no item, hides none, rewrites no existing log and is idempotent. Directory discovery: the real ergoDir/resolveErgoDir over a 3-level directory skeleton whose .ergo directories exist symbolically (os.Stat model), for 11 spellings of the start directory (absolute, relative, with .., the .ergo directory itself, none), against 'deepest enclosing .ergo of the directory the spelling names'.",
+    FS_ASSUME + ["paths are atoms: <root>/.ergo and Join(dir, name) are injective uninterpreted functions; os.MkdirAll succeeds",
+                 "discovery: path spellings are enumerated (11), not symbolic strings; filepath.Join/Dir/Base/Abs are computed on those literals by the Go library itself; symlinks, .ergo being a regular file, and permission errors are outside the claim",
+                 "read-only commands (list/show) use the same loadGraph -> getEventsPath path as the post-command read in these units"])
